@@ -196,6 +196,11 @@ func (j *Joe) Shutdown(ctx context.Context) (err error) {
 }
 
 func (j *Joe) removeSubscriber(sub subscriber) {
+	if _, ok := j.subscribers[sub]; !ok {
+		// Already removed (and closed) because sending to it failed;
+		// its unsubscription request may still arrive afterwards.
+		return
+	}
 	delete(j.subscribers, sub)
 	close(sub)
 }
